@@ -8,7 +8,7 @@
    change the outcome, so the same evaluation serves the N-invocation stress cases.
 
    Result (list Z, codes only):
-     [ done ; kind ; clean ; killed ; spec_obs ; demand ; len path ] ++ path
+     [ done ; kind ; clean ; killed ; spec_obs ; demand ; uniform ; len path ] ++ path
    done     1 = the parent finished within the fuel, 0 = it did not (never a normal value)
    kind     1 returns the callee's value, 2 returns something else, 3 raises the callee's
             exception, 4 raises the `.exception` attribute of the callee's RETURN value,
@@ -16,6 +16,7 @@
    clean    Spec.clean_exit of the model's final state
    killed   the kill really hit a live child in the model
    spec_obs Spec.outcome_ok on the OBSERVED outcome of the implementation
+   uniform  Spec.report_uniform on the observed outcome against the observed reference report
    demand   1 return, 2 callee's exception, 3 RuntimeError (PEP 479), 4 some other exception *)
 From Coq Require Import List Arith Bool ZArith.
 From PV Require Import Base.Exn Model.PipeKernel Model.Subproc Spec.SubprocSpec Gen.Subproc.
@@ -94,7 +95,7 @@ Definition demand_code (d : demand) : Z :=
   match d with DReturn => 1%Z | DRaiseCallee => 2%Z | DRaisePEP479 => 3%Z | DRaiseOther => 4%Z end.
 
 Definition eval_case (out : cout) (raised : exn) (big pick asy reterr unp : bool) (kw : kwcoll) (k : killpoint)
-                     (obs_killed : bool) (obs : pfinal) : list Z :=
+                     (obs_killed : bool) (obs : pfinal) (ref : exn) : list Z :=
   let b := mk_beh out raised big pick asy reterr unp in
   (* keyword names that collide with the implementation's own parameters (Model/Subproc.v, lrun_kw) *)
   let s := match kw with
@@ -103,9 +104,11 @@ Definition eval_case (out : cout) (raised : exn) (big pick asy reterr unp : bool
            | _ => run_case (beh_kw Gen.Subproc.kw_flags kw b) k
            end in
   let spec_obs := zb (outcome_ok b obs_killed obs) in
+  (* ref = class of the report observed for the plainest death ([] = none observed: not judged) *)
+  let uniform := zb (match ref with [] => true | _ => report_uniform (FRaise (XCls ref)) b obs_killed obs end) in
   match p_stat (ps s) with
   | PSDone f =>
       let '(kind, path) := final_code f in
-      [1%Z; kind; zb (clean_exit s); zb (c_killed (cs s)); spec_obs; demand_code (demanded b)] ++ path
-  | _ => [0%Z; 0%Z; 0%Z; zb (c_killed (cs s)); spec_obs; demand_code (demanded b); 0%Z]
+      [1%Z; kind; zb (clean_exit s); zb (c_killed (cs s)); spec_obs; demand_code (demanded b); uniform] ++ path
+  | _ => [0%Z; 0%Z; 0%Z; zb (c_killed (cs s)); spec_obs; demand_code (demanded b); uniform; 0%Z]
   end.
